@@ -315,6 +315,11 @@ fn check_function(
     }
 }
 
+fn text_route_id(i: usize, n: usize) -> usize {
+    let h = (n + 1) / 2;
+    if i < h { i } else { (1usize << 32) + (i - h) }
+}
+
 fn text_route(st: &mut Stats, t: &Tt, n: u32) {
     // the same function through the formula language (NamedSymbol env, ids = label order)
     let names: Vec<String> = (0..n).map(|i| format!("x{}", i)).collect();
@@ -325,11 +330,30 @@ fn text_route(st: &mut Stats, t: &Tt, n: u32) {
             terms.push(format!("({})", lits.join(" & ")));
         }
     }
-    let text = if terms.is_empty() { "false".to_string() } else { terms.join(" | ") };
-    let ordering: Vec<NamedSymbol> = names.iter().enumerate().map(|(i, s)| NamedSymbol { name: Rc::new(s.clone()), id: i }).collect();
+    let dnf = if terms.is_empty() { "false".to_string() } else { terms.join(" | ") };
+    // ids that coincide when narrowed to 32 bits (x0 ~ x_h, x1 ~ x_h+1, ..): identity is the full id
+    let ordering: Vec<NamedSymbol> = names.iter().enumerate().map(|(i, s)| NamedSymbol { name: Rc::new(s.clone()), id: text_route_id(i, n as usize) }).collect();
+    // the DNF itself and detours through other constructs of the language that denote the same function
+    let texts = [
+        dnf.clone(),
+        format!("lfp Zfix # (false | exists Zfix # (Zfix & ({})))", dnf),
+        format!("gfp Zfix # (({}) & forall Zfix # (Zfix | true))", dnf),
+        format!("[{}, false] >= 1", dnf),
+        format!("if true then ({}) else false", dnf),
+        format!("forall q # exists r # ((q <=> r) & ({}))", dnf),
+    ];
+    for text in texts {
+        text_route_one(st, t, n, &text, &ordering);
+    }
+}
+
+fn text_route_one(st: &mut Stats, t: &Tt, n: u32, text: &str, ordering: &[NamedSymbol]) {
+    let ordering = ordering.to_vec();
     st.evals += 1;
     st.bump("route_formula-text");
     let case = json!({"table": t.hex(), "route": "formula-text", "text": text});
+    // (the detours' fixed points stabilise after two rounds; anything near the budget is a loop)
+    util::budget(50_000_000, 200);
     let r = guarded(|| {
         let pf = ParsedFormula::new(&mut BufReader::new(text.as_bytes()), Some(ordering.clone()))?;
         Ok::<_, std::io::Error>(pf.eval())
@@ -337,7 +361,7 @@ fn text_route(st: &mut Stats, t: &Tt, n: u32) {
     match r {
         Ok(Ok(d)) => {
             let plain: BDD<usize> = BDD::from(d.as_ref().clone());
-            let vars: Vec<(usize, u32)> = (0..n).map(|i| (i as usize, i)).collect();
+            let vars: Vec<(usize, u32)> = (0..n).map(|i| (text_route_id(i as usize, n as usize), i)).collect();
             let reference = build_ref(t, &vars);
             if &plain != reference.as_ref() {
                 st.violate("c02.canonical", "C02:formula-text:not-canonical".into(), format!("formula `{}` evaluates to {} but canonical is {}", text, short(&Rc::new(plain)), short(&reference)), case);
@@ -346,6 +370,8 @@ fn text_route(st: &mut Stats, t: &Tt, n: u32) {
             }
         }
         Ok(Err(e)) => st.violate("c02.route-function", "C02:formula-text:rejected".into(), format!("DNF text rejected: {} : {}", text, e), case),
+        Err(crate::util::Caught::Budget("fp")) => st.violate("c02.route-function", "C02:formula-text:fixed-point-does-not-converge".into(), format!("`{}`: more than 200 fixed-point rounds (two suffice)", text), case),
+        Err(crate::util::Caught::Budget(_)) => st.bump("step_budget_exceeded(inconclusive case)"),
         Err(c) => st.violate("c02.panic", format!("C02:formula-text:{}", c.signature()), format!("{:?}", c), case),
     }
 }
